@@ -163,7 +163,7 @@ C("Set._del", cls="Set", params={"key": "K"},
 # range search (C02).  Oracle from the property statement: an omitted / None
 # bound is unbounded; an exclusive omitted bound drops only the overall
 # smallest (largest) key.
-BOUND = ["marker", "none", "any"]
+BOUND = ["marker", "none", "any", "K"]
 LO_OK = ("((j >= 1 or not excludemin) if (min is _marker or min is None) else "
          "((self._keys[j] > to_key(min)) if excludemin else (self._keys[j] >= to_key(min))))")
 HI_OK = ("((j < len(self._keys) - 1 or not excludemax) if (max is _marker or max is None) else "
